@@ -232,7 +232,7 @@ def check(prog, rep, tier):
                     expected='written only by __init__/manual_start/manual_stop', key=key)
     # and dynamically: no non-operator path changes it
     for (ev, state), rows in sorted(tab.rows.items()):
-        if ev in ('MSTART', 'MSTOP'):
+        if ev in ('MSTART', 'MSTART_HOLD', 'MSTOP'):
             continue
         for r in rows:
             for (obj, fld, v, line, fq) in r.st.writes:
